@@ -41,7 +41,7 @@ var props = map[string]propCfg{
 		Assumptions: commonAssumptions,
 	},
 	"C10": {
-		Require: []string{"filter_outputs_checked", "process_outputs_checked", "record_files_checked", "display_logs_checked", "outputs_judged_by_construction", "live_sessions", "sessions_with_one_write_held_up", "long_process_sessions", "cases_with_empty_reads"},
+		Require: []string{"filter_outputs_checked", "process_outputs_checked", "record_files_checked", "display_logs_checked", "outputs_judged_by_construction", "live_sessions", "sessions_with_one_write_held_up", "long_process_sessions", "cases_with_empty_reads", "sessions_with_a_silence_inside_a_frame"},
 		BinRace: true, QuickBatches: 8, ThoroughBatches: 48, Parallel: 8, Bins: []string{"rtcmfilter"}, AppTests: []string{"rtcmfilter"}, Level: "exploration", Floor: 40,
 		Rule:        "(a) in process, through a test file added to apps/rtcmfilter at check time by the build overlay: HandleMessages(start, reader, writer, config) with all four display/record combinations, paced/chunked readers, writers that are fast / yielding / sleeping, GOMAXPROCS in {1,2,4,16}, race detector on; the written bytes are compared at quiescence, defined on goroutine states (every goroutine with a frame in apps/rtcmfilter/main.go parked in a channel receive or gone, no write in flight, call counter stable). (b) the real binary built from the current tree with the hook overlay and the race detector: stdin as a file or a pipe written in random chunks with gaps, stdout read fast or through a 4 kB pipe read slowly, yield/sleep hook profiles, files read after exit as the date-ordered concatenation of the fresh log directory. Oracle: for inputs built from known segments (clean streams, well-formed decodable messages incl. SBAS/QZSS/NavIC and illegal timestamps) the expected output is the concatenation of the generator's own frame segments - independent of the code; for captured batches and hostile streams it is the concatenation of the typed messages of the same build's sequential framing, each required to be a frame by the independent predicate; the record file must hold the same bytes; readable log has one 'Frame length N bytes:' entry per delivered message. Inputs: captured batches, clean streams ending in a frame, hostile streams, well-formed decodable messages, truncated tails. Non-trivial: >= 2 messages delivered. Distinct by hash of the case.",
 		Assumptions: commonAssumptions,
@@ -77,26 +77,26 @@ var props = map[string]propCfg{
 		Assumptions: commonAssumptions,
 	},
 	"C06": {
-		Require:      []string{"times_compared", "illegal_timestamps_reported_as_errors", "histories_through_the_file_handler"},
+		Require:      []string{"times_compared", "illegal_timestamps_reported_as_errors", "histories_through_the_file_handler", "histories_run_side_by_side"},
 		QuickBatches: 8, ThoroughBatches: 64, Parallel: 16, Level: "exploration", Floor: 100,
 		Rule:        "histories generated truth first: a start time T (any of 7 time zones; half of them within +-2 s, a quarter of those within +-2 ms, of a constellation's week rollover), then per participating constellation (random non-empty subset of GPS, GLONASS, Galileo, BeiDou) true UTC observation instants u1 <= u2 <= ... with u1 >= T inside T's constellation week and gaps in {0, 1 ms, seconds, hours, up to 6 d - 1 ms, exactly on/around the next rollover}, spanning 0..many rollovers; each instant is converted to its 30-bit timestamp by pure time arithmetic (no rollover logic in the oracle); constellations and MSM4/MSM7 types are interleaved at random and illegal timestamps (>= 7 d of ms; GLONASS day 7 or >= 24 h of ms) are spliced in anywhere. The frames go through handler.GetMessage on one handler, a third of the histories through the stream handler. Every reported SentAt and StartOfWeek is parsed back and must equal the true instant / true week start; illegal timestamps must come back as errors without disturbing later messages. Non-trivial: >=2 constellations cross a rollover, or an illegal timestamp is followed by valid messages. Distinct by hash of the history.",
 		Assumptions: commonAssumptions,
 	},
 	"C17": {
-		Require: []string{"times_compared", "display_processes_checked", "displayed_times_compared", "histories_through_the_file_handler"},
+		Require: []string{"times_compared", "display_processes_checked", "displayed_times_compared", "histories_through_the_file_handler", "histories_run_side_by_side"},
 		BinRace: true, Bins: []string{"displayrtcm3"},
 		QuickBatches: 8, ThoroughBatches: 64, Parallel: 16, Level: "exploration", Floor: 100,
 		Rule:        "as C06, but the first observation of each constellation is drawn anywhere in the constellation week that contains the start time T: the first instant of the week, T itself, 1 ms / up to 3 s before T, the last millisecond of the week, or uniformly - followed by a C06-style continuation across rollovers. Non-trivial: some constellation's first observation is earlier than T. Distinct by hash of the history.",
 		Assumptions: commonAssumptions,
 	},
 	"C08": {
-		Require:      []string{"ranges_compared", "phase_ranges_compared", "rates_compared", "msm4_msm7_pairs_compared", "invalid_rough_cells", "invalid_rate_cells", "cells_rechecked_after_display"},
+		Require:      []string{"ranges_compared", "phase_ranges_compared", "rates_compared", "msm4_msm7_pairs_compared", "invalid_rough_cells", "invalid_rate_cells", "cells_rechecked_after_display", "brief_display_columns_checked"},
 		QuickBatches: 8, ThoroughBatches: 64, Parallel: 16, Level: "exploration", Floor: 1000,
 		Rule:        "signal cells for GPS, GLONASS, Galileo and BeiDou MSM4/MSM7: whole ms random plus 0/254/255(invalid), and all 0..255 swept with boundary fractions; fractional in {0,1,511,512,1023,random}; fine range / phase / rate in {min(invalid), min+1, -1, 0, 1, max, random}; rough rate in {-8192(invalid), +-8191, 0, +-1, random}; signal ids mostly those with a documented frequency, all 8x32 (constellation, id) pairs swept. Three quarters of the cells are obtained by decoding a one-cell message built by the independent encoder (so the library assigns the wavelength), one quarter by direct construction. Oracle: 200-bit big.Float evaluation of c/1000*(whole+frac/1024+fine*2^-24|2^-29), the same with 2^-29|2^-31 divided by the wavelength, rough+fine/10000 and its negative over the wavelength; relative tolerance 1e-12; wavelength against c/f from a table pinned in the harness; invalid-rough => zero and 'invalid' in the text; invalid-fine => rough alone; MSM4 cell vs the MSM7 cell encoding the same quantity; cases with a negative true value are executed but excluded from the numeric comparison, as the property states. Non-trivial: rough range not 0/0. Distinct by hash of the case.",
 		Assumptions: commonAssumptions,
 	},
 	"C05": {
-		Require:      []string{"decodes_compared", "displays_checked", "rejections_observed", "raw_frame_truncations_swept", "reused_buffer_decodes", "kept_results_rechecked", "concurrent_displays_checked"},
+		Require:      []string{"decodes_compared", "displays_checked", "rejections_observed", "raw_frame_truncations_swept", "reused_buffer_decodes", "kept_results_rechecked", "concurrent_displays_checked", "frames_decoded_back_to_back"},
 		QuickBatches: 8, ThoroughBatches: 64, Parallel: 16, Level: "exploration", Floor: 500, MayBeExhaustive: true,
 		Rule:        "enumerated: every boundary coordinate (-2^37, -2^37+1, +-1, 0, +-9999, +-10000, +-10001, every power of two +-1, 2^37-1) on each axis for both types; boundary antenna heights; EVERY truncation length 0..full-1 (must be an error, never a panic); EVERY other number in the 12-bit type field (must be an error). Random: 1005/1006 descriptions with full-range station id, ITRF year, reserved groups, coordinates (uniform 38-bit, realistic ECEF, boundary) and height, with and without trailing bytes. Each is encoded by the independent encoder and decoded by type1005/type1006 GetMessage and through handler.GetMessage + Message.String at both log levels; fields compared exactly; displayed coordinates/height compared with pure-integer formatting of value*0.0001 to four decimals. Non-trivial: all three coordinates non-zero, or a boundary/truncation/wrong-type case. Distinct by hash of the case.",
 		Assumptions: commonAssumptions,
@@ -108,13 +108,13 @@ var props = map[string]propCfg{
 		Assumptions: commonAssumptions,
 	},
 	"C04": {
-		Require:      []string{"decodes_compared", "encoder_validated_on_captured_msm_frames", "concurrent_decodes_compared"},
+		Require:      []string{"decodes_compared", "encoder_validated_on_captured_msm_frames", "concurrent_decodes_compared", "frames_decoded_back_to_back"},
 		QuickBatches: 8, ThoroughBatches: 64, Parallel: 16, Level: "exploration", Floor: 500,
 		Rule:        "random well-formed MSM4/MSM7 descriptions for all 14 types (cycled): mask shapes empty-satellite, empty-signal, 1x1, 1xk, 64x1, nx1, 32x2, 2x32, nxm with n*m<=64; cell masks all-ones / single one / sparse rows / dense / random; field styles random / all-zero / all-ones / invalid markers and neighbours / zero lock+half+CNR tails; multiple-message flag set only when a cell is present. Each description is encoded by the independent encoder at several padding sizes (0, small, 0..13, up to the 1023-byte limit) and decoded through the decoder package and through handler.GetMessage+Analyse; every exported header, satellite-cell and signal-cell field, the satellite/signal lists, the cell matrix and each cell's (satellite, signal id) attachment are compared with the description, so results at different paddings are compared with each other through it. The encoder itself is validated at every run by reproducing the captured real-receiver MSM frames bit for bit. Non-trivial: >=2 signal cells, or a zero-valued cell field, or >=3 padding bytes. Distinct by hash of (description, paddings).",
 		Assumptions: commonAssumptions,
 	},
 	"C07": {
-		Require:      []string{"type_length_pairs_swept", "stream_messages", "frames_reported_as_error", "raw_inputs_to_single_frame_decoding", "periodic_stream_bytes", "one_byte_messages_displayed"},
+		Require:      []string{"type_length_pairs_swept", "stream_messages", "frames_reported_as_error", "raw_inputs_to_single_frame_decoding", "periodic_stream_bytes", "one_byte_messages_displayed", "all_types_swept_with_short_bodies"},
 		QuickBatches: 16, ThoroughBatches: 128, Parallel: 16, Level: "exploration", Floor: 1000,
 		Rule:        "(1) CRC-valid frames for each of 19 type numbers (1005, 1006, the 14 MSM types, 1230, 1, 4095) x EVERY payload length 1..1023 x payload shapes (uniform random, sparse, all ones, plausible header with few mask bits, masks announcing 65..2048 cells, zeros), plus all 256 one-byte payloads; (2) well-formed 1005/1006/MSM bodies (independent encoder) truncated at every byte position, with mask bits forced upward, and with illegal timestamps; (3) arbitrary streams through the stream handler (all 0xD3, maximal length claims with short data, random up to 20 kB / 1 MB, hostile mixes). Each frame goes through single-frame decoding, Copy, String, Analyse, PrepareForDisplay and String again at both log levels under recover(); streams run on the handler's own goroutine so a panic there ends the child and is attributed to the on-disk witness. A case that runs for 60 s (>10^4 x median) is re-run alone and only then called a hang. Non-trivial: a CRC-valid frame of a decodable type shorter than / inconsistent with its layout, or a hostile stream. Distinct by hash of the bytes.",
 		Assumptions: commonAssumptions,
